@@ -229,6 +229,16 @@ def fn_taints(e):
 
 
 def run_case(case):
+    from ..cbref import interp as cbi
+
+    cbi.APPROX[0] = bool(case.get("approx"))
+    try:
+        return _run_case(case)
+    finally:
+        cbi.APPROX[0] = False
+
+
+def _run_case(case):
     ctx = case["ctx"]
     e = case["e"]
     key = ctx + "|" + X.shape_key(e)
@@ -453,6 +463,15 @@ def cases(tier, seed):
             e = X.fill(s, [("var", "A$"), ("str", "-"), ("var", "B$"), ("var", "C$")])
             for ctx in STR_CONTEXTS:
                 yield {"ctx": ctx, "e": e}
+    # 4b. transcendental functions at non-trivial arguments, compared with a relative tolerance of 1e-6
+    for f in ("SIN", "COS", "TAN", "ATN", "EXP", "LOG", "SQR"):
+        for arg in (("var", "A"), ("bin", "/", ("var", "B"), X.num(4)), ("bin", "+", ("fn", "ABS", [("var", "C")]), X.num(0.5)), X.num(2)):
+            e = ("fn", f, [arg])
+            yield {"ctx": "assign", "e": e, "approx": True}
+            yield {"ctx": "assign", "e": ("bin", "*", e, X.num(3)), "approx": True}
+            yield {"ctx": "if_noelse", "e": ("bin", ">", e, X.num(0.5)), "approx": True}
+            for g in ("SIN", "EXP", "SQR"):
+                yield {"ctx": "assign", "e": ("fn", g, [("fn", "ABS", [e])]), "approx": True}
     # 5. seeded random trees beyond the bound
     nrand = 1500 if tier == "quick" else 150000
     rng = random.Random(99991 * (seed + 1))
